@@ -102,6 +102,7 @@ type c27Dir struct {
 	Menu         []string  // client AcceptCompressors menu (nil: none); resp direction only
 	FailCode     codes.Code // status the RPC ended with as seen by the client
 	WantFail     codes.Code // UNIMPLEMENTED (server receives) / INTERNAL (client receives)
+	NoStatus     bool       // the RPC status is not observable (connection torn down): skip the W5 status clause
 	SendProj     string    // key projection of the sender's configuration
 	RecvProj     string    // key projection of the receiver's configuration
 }
@@ -201,9 +202,11 @@ func c27JudgeDir(d c27Dir, f *c27Findings) (allValid, supported, permitted bool)
 			if len(d.Delivered) > firstFlagged {
 				f.add(d.Name+"-unsupported-encoding-delivered", d.RecvProj+"/enc="+enc, "%s receiver has no decompressor for %q yet delivered flagged message #%d", d.Name, enc, firstFlagged)
 			}
-			if d.FailCode != d.WantFail {
+			if !d.NoStatus && d.FailCode != d.WantFail {
 				f.add(d.Name+"-unsupported-encoding-wrong-status", d.RecvProj+"/enc="+enc, "%s: receiver has no decompressor for grpc-encoding %q and a flagged message arrived: RPC ended with %v, want %v", d.Name, enc, d.FailCode, d.WantFail)
 			}
+		} else if d.NoStatus {
+			f.note(d.Name + "-unsupported-enc-unflagged-only:status-unobservable")
 		} else if d.FailCode == d.WantFail {
 			f.note(d.Name + "-unsupported-enc-unflagged-only:failed-" + d.WantFail.String())
 		} else {
@@ -285,6 +288,7 @@ type c27Handler struct {
 	Recv       [][]byte
 	RecvErr    string
 	SetSendErr string // "-" not called, "" accepted, else the error text
+	gate       chan struct{} // if non-nil the bidi handler waits for it before its first RecvMsg
 	Advertised []string
 	Attempted  [][]byte
 }
@@ -341,6 +345,9 @@ func (h *c27Handler) unary(_ any, ctx context.Context, dec func(any) error, _ gr
 
 func (h *c27Handler) bidi(_ any, ss grpc.ServerStream) error {
 	h.begin(ss.Context())
+	if h.gate != nil {
+		<-h.gate
+	}
 	for {
 		var in []byte
 		err := ss.RecvMsg(&in)
@@ -960,6 +967,8 @@ type c27Replay struct {
 	RR  *c27RRCfg `json:"rr,omitempty"`
 	RC  *c27RCCfg `json:"rc,omitempty"`
 	RS  *c27RSCfg `json:"rs,omitempty"`
+	TR  *c27TRCfg `json:"tr,omitempty"`
+	TS  *c27TSCfg `json:"ts,omitempty"`
 }
 
 func c27Record(r *vk.Run, sub string, cfgKey string, rep c27Report, rp c27Replay, nontrivial bool, sampled map[string]bool) {
@@ -992,12 +1001,14 @@ func TestVerif_C27_Compression(t *testing.T) {
 	r := vk.Start(t, "c27_compression", "exploration", c27P)
 	defer r.Finish()
 	rr, rc, rs := c27RRCases(r.Thorough()), c27RCCases(), c27RSCases()
-	r.Rule(c27P, fmt.Sprintf("full cross products: rr (real client x real server) UseCompressor{-,identity,gzip,c,zz} x legacy WithCompressor/WithDecompressor{-,gzip,l} x AcceptCompressors{-,gzip,c; thorough tier also 'gzip,c'} x legacy RPCCompressor/RPCDecompressor{-,gzip,l} x SetSendCompressor{-,identity,gzip,c,zz} x shape{unary 55B, unary empty, bidi 3+3 msgs} = %d; rc (raw client -> real server) grpc-encoding{-,identity,gzip,c,unknown} x flag{0,1} x payload{valid,invalid} x grpc-accept-encoding{-,gzip,c,'gzip,c',unknown} x RPCCompressor{-,gzip} x SetSendCompressor{-,gzip,c} = %d; rs (real client -> raw server) response grpc-encoding{-,identity,gzip,c,l,unknown} x flag x payload validity x legacy{-,gzip,l} x AcceptCompressors{-,gzip} x UseCompressor{-,gzip,c} = %d. Non-trivial: at least one direction carries a non-identity grpc-encoding or a flagged message (the flag/encoding clauses are then not vacuous)", len(rr), len(rc), len(rs)))
+	tr, ts := c27TRCases(), c27TSCases()
+	r.Rule(c27P, fmt.Sprintf("full cross products: rr (real client x real server) UseCompressor{-,identity,gzip,c,zz} x legacy WithCompressor/WithDecompressor{-,gzip,l} x AcceptCompressors{-,gzip,c; thorough tier also 'gzip,c'} x legacy RPCCompressor/RPCDecompressor{-,gzip,l} x SetSendCompressor{-,identity,gzip,c,zz} x shape{unary 55B, unary empty, bidi 3+3 msgs} = %d; rc (raw client -> real server) grpc-encoding{-,identity,gzip,c,unknown} x flag{0,1} x payload{valid,invalid} x grpc-accept-encoding{-,gzip,c,'gzip,c',unknown} x RPCCompressor{-,gzip} x SetSendCompressor{-,gzip,c} = %d; rs (real client -> raw server) response grpc-encoding{-,identity,gzip,c,l,unknown} x flag x payload validity x legacy{-,gzip,l} x AcceptCompressors{-,gzip} x UseCompressor{-,gzip,c} = %d; tr (real client <- raw server, WHERE grpc-encoding appears) response-HEADERS value{-,identity,gzip,c,unknown} x TRAILERS value{-,identity,gzip,c,unknown} x compressed flags of 1-2 messages{0,1,00,01,10,11} x number of messages the application reads before the trailers arrive{0..n}, plus trailers-only responses carrying each value = %d; ts (raw client -> real server mirror) request-HEADERS value x value in a later client HEADERS frame x flag{0,1} x handler reads before/after that frame = %d. Non-trivial: at least one direction carries a non-identity grpc-encoding or a flagged message (the flag/encoding clauses are then not vacuous)", len(rr), len(rc), len(rs), len(tr), len(ts)))
 	r.Assume(c27P, "registered compressors in the test binary: gzip (encoding/gzip) and custom 'c'; 'l' exists only as legacy grpc.Compressor/Decompressor; 'zz'/'unknown' exist nowhere")
 	r.Assume(c27P, "reading of the statement: an UNFLAGGED message under an encoding the receiver does not support may either fail with the required code or be delivered verbatim (it is not 'undecoded data'); W2 is judged only when the server actually sent a flagged message; SetSendCompressor is called before the first response message")
 	if !c27StrictEmpty {
 		r.Assume(c27P, "zero-length messages sent with flag 0 under a non-identity grpc-encoding are tallied (extra note:empty-msg-flag0-under-nonidentity/*), not reported: grpc-go never compresses an empty message, which the gRPC compression spec permits but the letter of the statement ('if and only if') does not")
 	}
+	r.Assume(c27P, "the grpc-encoding of a stream direction is the value in that direction's FIRST header block (response HEADERS / request HEADERS); a grpc-encoding field in trailers or in any later HEADERS frame has no meaning and must not change how messages are decoded, whenever the application reads them")
 	r.Assume(c27P, "trusted: testing/synctest quiescence, x/net/http2 framer + hpack used by the tee parser and raw peers, stdlib compress/gzip as reference decoder")
 
 	if r.ReplayFile() != "" {
@@ -1014,6 +1025,10 @@ func TestVerif_C27_Compression(t *testing.T) {
 			c27Record(r, "rc", rp.RC.String(), c27RunRC(t, r, *rp.RC), rp, true, sampled)
 		case rp.RS != nil:
 			c27Record(r, "rs", rp.RS.String(), c27RunRS(t, r, *rp.RS), rp, true, sampled)
+		case rp.TR != nil:
+			c27Record(r, "tr", rp.TR.String(), c27RunTR(t, r, *rp.TR), rp, true, sampled)
+		case rp.TS != nil:
+			c27Record(r, "ts", rp.TS.String(), c27RunTS(t, r, *rp.TS), rp, true, sampled)
 		}
 		return
 	}
@@ -1059,5 +1074,21 @@ func TestVerif_C27_Compression(t *testing.T) {
 		rep := c27RunRS(t, r, cfg)
 		nt := cfg.Flag == 1 || (cfg.Enc != "-" && cfg.Enc != "identity")
 		c27Record(r, "rs", cfg.String(), rep, c27Replay{Leg: "rs", RS: &cfg}, nt, sampled)
+	}
+	for i := range tr {
+		if !next() {
+			continue
+		}
+		cfg := tr[i]
+		rep := c27RunTR(t, r, cfg)
+		c27Record(r, "tr", cfg.String(), rep, c27Replay{Leg: "tr", TR: &cfg}, rep.nontrivial, sampled)
+	}
+	for i := range ts {
+		if !next() {
+			continue
+		}
+		cfg := ts[i]
+		rep := c27RunTS(t, r, cfg)
+		c27Record(r, "ts", cfg.String(), rep, c27Replay{Leg: "ts", TS: &cfg}, rep.nontrivial, sampled)
 	}
 }
